@@ -47,11 +47,11 @@ theorem getters_grow (s s' : S) (a : Act) (hs : step s a = some s') (sh : Nat) (
       have hge := tally_ge (aGts id) ha
       split at hs <;> (repeat' split at hs) <;> (try cases hs) <;>
         simp only [setAdder, spawnWorker, aGts, aPre] at * <;>
-        grind [List.getElem?_set, List.count_append]
+        grind
   | wk n e =>
     simp only [step, stepWorker] at hs
     split at hs <;> (repeat' split at hs) <;> (try cases hs) <;>
-      simp only [endDeal] at * <;> grind [List.getElem?_set]
+      simp only [endDeal] at * <;> grind
   | tail pc =>
     cases pc <;> simp only [step, stepTail] at hs <;> (repeat' split at hs) <;> (try cases hs) <;>
       simp only [spawnWorker] at * <;> grind
